@@ -6,9 +6,11 @@ a scratch copy of the repository with the change applied (harness copy whose pat
 worktree), and files everything under /verif/seeded/<id>/ ."""
 import json, os, re, shutil, subprocess, sys, time
 ROOT = os.path.dirname(os.path.dirname(os.path.abspath(__file__)))
-WT = "/tmp/seed/evalwt"
-EH = "/tmp/seed/evalh"
-EW = "/tmp/seed/evalwork"
+# several evaluations may run side by side, each with its own scratch worktree / harness copy / work directory
+INST = os.environ.get("SEED_INSTANCE", "")
+WT = "/tmp/seed/evalwt" + INST
+EH = "/tmp/seed/evalh" + INST
+EW = "/tmp/seed/evalwork" + INST
 
 
 def sh(cmd, cwd=None, env=None, timeout=3600):
